@@ -88,14 +88,14 @@ func main() {
 			e.Rep.Hit("witness")
 			runCase(w)
 		}
-		n := e.N(110, 1500)
+		n := e.N(110, 1200)
 		for i := 0; i < n; i++ {
 			p := genTxnProgram(e.Rng.Fork())
 			runCase(p)
 		}
 	case "C25":
 		e.Rep.Rule = idxRule
-		n := e.N(45, 1200)
+		n := e.N(45, 350)
 		for i := 0; i < n; i++ {
 			runCase(genIdxProgram(e.Rng.Fork()))
 		}
@@ -105,7 +105,7 @@ func main() {
 			e.Rep.Hit("witness")
 			runCase(w)
 		}
-		n := e.N(40, 1200)
+		n := e.N(40, 350)
 		for i := 0; i < n; i++ {
 			runCase(genConsProgram(e.Rng.Fork()))
 		}
